@@ -1253,14 +1253,17 @@ def campaign(build, tier, seed, report, budget=1):
               "Set Printing Width 100000.\nSet Printing Depth 100000.\n")
     body = ("Eval vm_compute in (site_counts coo_init_defaults site_justification ctor_sites).\n"
             "Eval vm_compute in (map (fun e => (j_file e, j_func e, j_ord e)) (filter (fun e => match j_just e with "
-            "Unjustified _ => true | _ => false end) site_justification)).")
+            "Unjustified _ => true | _ => false end) site_justification)).\n"
+            "Eval vm_compute in (flat_map (fun e => match j_just e with JustifiedBy t _ => [(j_file e, j_func e, j_ord e, t)] "
+            "| _ => [] end) site_justification).")
     site_info = {}
     try:
         out = build.eval_cases("c06_sites", header, [body])[0]
         ev = vlib.parse_eval_lists(out)
         nums = [int(x) for x in re.findall(r"-?\d+", ev[0])]
         site_info = {"constructor_call_sites": nums[0], "promising_sites": nums[1], "justified_by_proved_schema": nums[2],
-                     "unjustified_correspondence_only": nums[3], "refuted": nums[4],
+                     "justified_by_cited_theorem": nums[3], "unjustified_correspondence_only": nums[4], "refuted": nums[5],
+                     "cited": re.findall(r'\("([^"]*)"%?s?t?r?i?n?g?, "([^"]*)"%?s?t?r?i?n?g?, (\d+), "([^"]*)"%?s?t?r?i?n?g?\)', ev[2]),
                      "unjustified_sites": re.findall(r'\("([^"]*)"%?s?t?r?i?n?g?, "([^"]*)"%?s?t?r?i?n?g?, (\d+)\)', ev[1])}
     except Exception as ex:  # noqa: BLE001
         site_info = {"error": str(ex)[-300:]}
@@ -1278,9 +1281,11 @@ def campaign(build, tier, seed, report, budget=1):
     cov["program_steps_judged"] = len([1 for (ci, si) in where if not cases[ci].get("sweep")])
     cov["sweep_cases"] = len([c for c in cases if c["kind"] == "prog" and c.get("sweep")])
     cov["sites"] = site_info
-    cov["level_note"] = ("proof level for the constructor, the schemas, the programs theorem and the %s sites justified by a "
-                         "proved schema; the %s Unjustified sites are covered by the run-time judge only (correspondence level)"
-                         % (site_info.get("justified_by_proved_schema"), site_info.get("unjustified_correspondence_only")))
+    cov["level_note"] = ("proof level for the constructor, the schemas, the programs theorem, the %s sites justified by a "
+                         "proved schema and the %s sites justified by a cited theorem of another development; the %s Unjustified "
+                         "sites are covered by the run-time judge only (correspondence level)"
+                         % (site_info.get("justified_by_proved_schema"), site_info.get("justified_by_cited_theorem"),
+                            site_info.get("unjustified_correspondence_only")))
     cov["samples"] = [dict(case={"inputs": cases[i]["inputs"], "steps": cases[i]["steps"]}, impl=(res[i] or {}).get("results"))
                       for i in (0, len(cases) // 5, len(cases) // 3) if cases[i]["kind"] == "prog"][:3]
     agg = {}
